@@ -459,6 +459,20 @@ func cmdCheck(args []string) int {
 				mu.Unlock()
 				return
 			}
+			// watchdog: a worker ends by itself when its budget is used up; one that is still there long
+			// after that is stuck (a deadlock inside the simulation). It is killed, and the check ends
+			// with exit 2 (harness trouble), never with a verdict and never by hanging.
+			grace := *budget + 4*time.Minute
+			if *tier == "thorough" {
+				grace = *budget + 15*time.Minute
+			}
+			hung := time.AfterFunc(grace, func() {
+				mu.Lock()
+				workerErr = append(workerErr, fmt.Sprintf("worker %d: still running %s after its budget of %s: killed (stuck simulation)", i, grace-*budget, *budget))
+				mu.Unlock()
+				cmd.Process.Kill()
+			})
+			defer hung.Stop()
 			sc := bufio.NewScanner(stdout)
 			sc.Buffer(make([]byte, 1<<20), 64<<20)
 			for sc.Scan() {
@@ -606,11 +620,13 @@ func cmdCheck(args []string) int {
 		exit = 2
 	}
 	fmt.Printf("runs=%d heights=%d sim_time=%.0fs wall=%.1fs runs/hour=%.0f distinct_nontrivial=%d violations=%d\n", ev.Coverage.Evaluations, ev.Coverage.Heights, ev.Coverage.SimSeconds, wall.Seconds(), ev.Coverage.RunsPerHour, ev.Coverage.DistinctNontrivial, violations)
-	if exit == 2 {
-		return 2
-	}
+	// a violation that was reproduced from its replay file in a fresh process stands on its own,
+	// whatever trouble other workers had (a stuck or dead worker alone is exit 2, never a verdict)
 	if violations > 0 {
 		return 1
+	}
+	if exit == 2 {
+		return 2
 	}
 	if ev.Coverage.Evaluations == 0 {
 		fmt.Fprintln(os.Stderr, "no run completed")
